@@ -19,6 +19,7 @@ CONSTANTS
   UseSelf = TRUE
   FundAcct2 = FALSE
   UseBuild = FALSE
+  NChanges = {1}
   UseDiverge = FALSE
   UseAdv = FALSE
 SPECIFICATION Spec
